@@ -1,8 +1,218 @@
-import AlgoVerif.Common
-/-! Line-protocol component for C16 — not built yet. -/
-namespace AlgoVerif.C16.Driver
+import AlgoVerif.Model.C16
+/-!
+Line-protocol component for C16.
 
-def runCase (_hdr : List String) (ops : List String) : List String :=
-  ops.map fun _ => "bad-case"
+    # case <n> comp=reg sh=<uint32> regs=<kinds>      kinds ∈ {u,s,a,d}*: unordered, stable, sorted asc/desc
+    add i v…  remove i v…  removeall i  contains i v…  size i  isempty i  all i  string i
+    equal i j  subset i j  superset i j  clone d i  cloneempty d i  new d k
+    union d i j…  inter d i j…  diff d i j…  powerset i  partitions i
+
+Values are `Int`.  The harness installs (through the verif hook `VerifSetShuffleSource`) a scripted
+`rand.Source` — a 32-bit LCG started at `sh` — behind the package-level `r` of /repo/set, and this file
+carries the mirror of `math/rand`'s `(*Rand).Shuffle` / `int31n` over that source, so that every
+iteration order (and with it the internal member order that `String()` shows) is the same on both
+sides.  The Model itself is parametric in the shuffle.
+-/
+namespace AlgoVerif.C16.Driver
+open AlgoVerif AlgoVerif.C16
+
+/-! ### scripted source + mirror of math/rand -/
+
+def lcg (x : UInt32) : UInt32 := x * 1664525 + 1013904223
+
+/-- `for low < thresh { v = r.Uint32(); prod = uint64(v) * uint64(n); low = uint32(prod) }` -/
+def int31nLoop (n thresh : UInt32) : Nat → UInt32 → UInt64 → UInt64 × UInt32
+  | 0, x, prod => (prod, x)
+  | f + 1, x, prod =>
+    if prod.toUInt32 < thresh then
+      let x := lcg x
+      int31nLoop n thresh f x (x.toUInt64 * n.toUInt64)
+    else (prod, x)
+
+/-- `(*Rand).int31n(n)` with `Uint32()` = next LCG value -/
+def int31n (n : UInt32) (x : UInt32) : UInt32 × UInt32 :=
+  let x := lcg x
+  let prod : UInt64 := x.toUInt64 * n.toUInt64
+  let (prod, x) :=
+    if prod.toUInt32 < n then int31nLoop n ((0 - n) % n) 1000 x prod else (prod, x)
+  ((prod >>> 32).toUInt32, x)
+
+/-- `indices` after `r.Shuffle(n, func(i, j) { indices[i], indices[j] = indices[j], indices[i] })` -/
+def shuffleLoop : Nat → Array Nat → UInt32 → Array Nat × UInt32
+  | 0, a, g => (a, g)
+  | i + 1, a, g =>
+    -- for ; i > 0; i-- { j := int(r.int31n(int32(i + 1))); swap(i, j) }   (here the loop variable is i+1)
+    let (j, g) := int31n (i + 2).toUInt32 g
+    shuffleLoop i (a.swapIfInBounds (i + 1) j.toNat) g
+
+def shuffle : Shuffle UInt32 := fun n g =>
+  let (a, g) := shuffleLoop (n - 1) (Array.range n) g
+  (a.toList, g)
+
+/-! ### callbacks -/
+
+def eqI : EqualFunc Int := fun a b => .ok (a == b)
+def cmpAsc : CompareFunc Int := fun a b => .ok (if a < b then -1 else if a > b then 1 else 0)
+def cmpDesc : CompareFunc Int := fun a b => .ok (if a < b then 1 else if a > b then -1 else 0)
+
+def implOf : Char → Option (Impl Int)
+  | 'u' => some (.unordered eqI)
+  | 's' => some (.stable eqI)
+  | 'a' => some (.sorted cmpAsc)
+  | 'd' => some (.sorted cmpDesc)
+  | _ => none
+
+def isUnordered {α} (s : MSet α) : Bool :=
+  match s.impl with
+  | .unordered _ => true
+  | _ => false
+
+/-! ### canonical printing -/
+
+def insertBy {α} (lt : α → α → Bool) (x : α) : List α → List α
+  | [] => [x]
+  | y :: ys => if lt x y then x :: y :: ys else y :: insertBy lt x ys
+
+def isort {α} (lt : α → α → Bool) (l : List α) : List α := l.foldr (insertBy lt) []
+
+/-- lexicographic order, a proper prefix first -/
+def lexLt {α} (lt : α → α → Bool) : List α → List α → Bool
+  | [], [] => false
+  | [], _ :: _ => true
+  | _ :: _, [] => false
+  | x :: xs, y :: ys => if lt x y then true else if lt y x then false else lexLt lt xs ys
+
+def ltI (a b : Int) : Bool := a < b
+def ltL : List Int → List Int → Bool := lexLt ltI
+def ltLL : List (List Int) → List (List Int) → Bool := lexLt ltL
+
+/-- members in iteration order for stable/sorted, ascending for unordered -/
+def canonMembers (s : MSet Int) : List Int :=
+  if isUnordered s then isort ltI s.members else s.members
+
+def showLL (l : List (List Int)) : String :=
+  "[" ++ " ".intercalate (l.map showIntList) ++ "]"
+
+def showLLL (l : List (List (List Int))) : String :=
+  "[" ++ " ".intercalate (l.map showLL) ++ "]"
+
+def showOutcome {α} (f : α → String) : Outcome α → String
+  | .ok a => "ok" ++ (let s := f a; if s.isEmpty then "" else " " ++ s)
+  | .panic => "panic"
+  | .diverge => "hang"
+
+/-! ### the register machine -/
+
+structure St where
+  regs : Array (MSet Int)
+  g : UInt32
+  dead : Bool := false
+
+def parseInts (ws : List String) : Option (List Int) := ws.mapM parseInt?
+def parseNats (ws : List String) : Option (List Nat) := ws.mapM parseNat?
+
+def getRegs (regs : Array (MSet Int)) (is : List Nat) : Option (List (MSet Int)) := is.mapM (regs[·]?)
+
+def str (s : MSet Int) : String := s.string (fun v => toString v)
+
+/-- result line and new state of one op; `none` = malformed op -/
+def step (st : St) (ws : List String) : Option (Outcome (St × String)) :=
+  let regs := st.regs
+  let setReg (d : Nat) (s : MSet Int) (g : UInt32) (out : String) : Option (Outcome (St × String)) :=
+    if d < regs.size then some (.ok ({ st with regs := regs.setIfInBounds d s, g := g }, out)) else none
+  let lift {β} (o : Outcome β) (k : β → Option (Outcome (St × String))) : Option (Outcome (St × String)) :=
+    match o with
+    | .ok b => k b
+    | .panic => some .panic
+    | .diverge => some .diverge
+  match ws with
+  | "add" :: i :: vs => do
+    let i ← parseNat? i; let vs ← parseInts vs; let s ← regs[i]?
+    lift (s.add vs) fun s => setReg i s st.g ""
+  | "remove" :: i :: vs => do
+    let i ← parseNat? i; let vs ← parseInts vs; let s ← regs[i]?
+    lift (s.remove vs) fun s => setReg i s st.g ""
+  | ["removeall", i] => do
+    let i ← parseNat? i; let s ← regs[i]?
+    setReg i s.removeAll st.g ""
+  | "contains" :: i :: vs => do
+    let i ← parseNat? i; let vs ← parseInts vs; let s ← regs[i]?
+    lift (s.contains vs) fun b => some (.ok (st, showBool b))
+  | ["size", i] => do
+    let i ← parseNat? i; let s ← regs[i]?
+    some (.ok (st, toString s.size))
+  | ["isempty", i] => do
+    let i ← parseNat? i; let s ← regs[i]?
+    some (.ok (st, showBool s.isEmpty))
+  | ["all", i] => do
+    let i ← parseNat? i; let s ← regs[i]?
+    lift (s.all shuffle st.g) fun (ms, g) =>
+      some (.ok ({ st with g := g }, showIntList (if isUnordered s then isort ltI ms else ms)))
+  | ["string", i] => do
+    let i ← parseNat? i; let s ← regs[i]?
+    some (.ok (st, str s))
+  | ["equal", i, j] => do
+    let i ← parseNat? i; let j ← parseNat? j; let s ← regs[i]?; let t ← regs[j]?
+    lift (s.equal t) fun b => some (.ok (st, showBool b))
+  | ["subset", i, j] => do
+    let i ← parseNat? i; let j ← parseNat? j; let s ← regs[i]?; let t ← regs[j]?
+    lift (s.isSubset shuffle t st.g) fun (b, g) => some (.ok ({ st with g := g }, showBool b))
+  | ["superset", i, j] => do
+    let i ← parseNat? i; let j ← parseNat? j; let s ← regs[i]?; let t ← regs[j]?
+    lift (s.isSuperset shuffle t st.g) fun (b, g) => some (.ok ({ st with g := g }, showBool b))
+  | ["clone", d, i] => do
+    let d ← parseNat? d; let i ← parseNat? i; let s ← regs[i]?
+    setReg d s.clone st.g ""
+  | ["cloneempty", d, i] => do
+    let d ← parseNat? d; let i ← parseNat? i; let s ← regs[i]?
+    setReg d s.cloneEmpty st.g ""
+  | ["new", d, k] => do
+    let d ← parseNat? d
+    let impl ← match k.toList with
+      | [c] => implOf c
+      | _ => none
+    setReg d (MSet.new impl) st.g ""
+  | "union" :: d :: i :: js => do
+    let d ← parseNat? d; let i ← parseNat? i; let js ← parseNats js
+    let s ← regs[i]?; let sets ← getRegs regs js
+    lift (s.union shuffle sets st.g) fun (t, g) => setReg d t g (str t)
+  | "inter" :: d :: i :: js => do
+    let d ← parseNat? d; let i ← parseNat? i; let js ← parseNats js
+    let s ← regs[i]?; let sets ← getRegs regs js
+    lift (s.intersection sets) fun t => setReg d t st.g (str t)
+  | "diff" :: d :: i :: js => do
+    let d ← parseNat? d; let i ← parseNat? i; let js ← parseNats js
+    let s ← regs[i]?; let sets ← getRegs regs js
+    lift (s.difference shuffle sets st.g) fun (t, g) => setReg d t g (str t)
+  | ["powerset", i] => do
+    let i ← parseNat? i; let s ← regs[i]?
+    lift (s.powerset shuffle st.g) fun (ps, g) =>
+      let subsets := isort ltL (ps.members.map canonMembers)
+      some (.ok ({ st with g := g }, s!"{ps.size} {showLL subsets}"))
+  | ["partitions", i] => do
+    let i ← parseNat? i; let s ← regs[i]?
+    lift (s.partitions shuffle st.g) fun (ps, g) =>
+      let parts := isort ltLL (ps.members.map fun p => isort ltL (p.members.map canonMembers))
+      some (.ok ({ st with g := g }, s!"{ps.size} {showLLL parts}"))
+  | _ => none
+
+def runReg (hdr : List String) (ops : List String) : List String := Id.run do
+  let kinds := (headerGet hdr "regs").getD ""
+  let some impls := kinds.toList.mapM implOf | return ops.map fun _ => "bad-case"
+  let mut st : St := { regs := (impls.map MSet.new).toArray, g := (headerNat hdr "sh" 0).toUInt32 }
+  let mut out : Array String := #[]
+  for line in ops do
+    if st.dead then out := out.push "skip"; continue
+    match step st (words line) with
+    | none => out := out.push "bad-op"
+    | some (.ok (st', s)) => st := st'; out := out.push (if s.isEmpty then "ok" else "ok " ++ s)
+    | some .panic => st := { st with dead := true }; out := out.push "panic"
+    | some .diverge => st := { st with dead := true }; out := out.push "hang"
+  return out.toList
+
+def runCase (hdr : List String) (ops : List String) : List String :=
+  match headerGet hdr "comp" with
+  | some "reg" => runReg hdr ops
+  | _ => ops.map fun _ => "bad-case"
 
 end AlgoVerif.C16.Driver
